@@ -66,7 +66,7 @@ func genStrVal(rt *rapid.T) *gen.Val {
 	return gen.StringVal(s)
 }
 
-var fragPatterns = []string{"b*", "b?z", "*x", "a*b*c", "??", "fo?*", "x.*", "*", "?", "a_b*", "a_?", "*-*", "é*", "*a*"}
+var fragPatterns = []string{`C\:\\Users\\*`, `foo\*bar*`, `x\?y?`, `a\ b*`, `p\\*`, "b*", "b?z", "*x", "a*b*c", "??", "fo?*", "x.*", "*", "?", "a_b*", "a_?", "*-*", "é*", "*a*"}
 
 func genFragLeaf(rt *rapid.T, fields []fieldSpec) *gen.Node {
 	f := rapid.SampledFrom(fields).Draw(rt, "field")
@@ -219,7 +219,24 @@ func bump(s string, d int) (string, bool) {
 }
 
 func instantiate(p string, star, q string) string {
-	return strings.ReplaceAll(strings.ReplaceAll(p, "*", star), "?", q)
+	var b strings.Builder
+	esc := false
+	for _, r := range p {
+		switch {
+		case esc:
+			esc = false
+			b.WriteRune(r)
+		case r == '\\':
+			esc = true
+		case r == '*':
+			b.WriteString(star)
+		case r == '?':
+			b.WriteString(q)
+		default:
+			b.WriteRune(r)
+		}
+	}
+	return b.String()
 }
 
 // candidates returns the probe values of one field: every region cut out by the
